@@ -15,6 +15,7 @@ import collections
 import glob
 import json
 import os
+import shutil
 import struct
 import subprocess
 import time
@@ -55,7 +56,15 @@ FIELD_NAMES = [b"To", b"Cc", b"Bcc", b"to", b"CC", b"bcc", b"TO", b"Apparently-T
 
 
 def lists_worker(hbin, env, lo, hi):
+    # pool workers do not run atexit handlers: remove the scratch directory here
     d = build.mktemp("nqv-c17-l-")
+    try:
+        return _lists_worker(hbin, env, lo, hi, d)
+    finally:
+        shutil.rmtree(d, ignore_errors=True)
+
+
+def _lists_worker(hbin, env, lo, hi, d):
     path = os.path.join(d, "lists.bin")
     feats = collections.Counter()
     with open(path, "wb") as f:
@@ -140,7 +149,6 @@ def expected(case):
 
 def private_qqrec(home):
     """the stand-in queue program, copied so that a rebuild of bin/ by somebody else cannot disturb a run"""
-    import shutil
     dst = home + "/bin/qq-rec"
     shutil.copy(QQREC, dst)
     os.chmod(dst, 0o755)
@@ -255,9 +263,16 @@ def report(res, where, kind, diffs, wit):
 
 
 def inject_worker(bdir, lo, hi):
+    home = build.mktemp("nqv-c17-i-")
+    try:
+        return _inject_worker(bdir, lo, hi, home)
+    finally:
+        shutil.rmtree(home, ignore_errors=True)
+
+
+def _inject_worker(bdir, lo, hi, home):
     res = core.Result()
     b = build.Build("asan", bdir)
-    home = build.mktemp("nqv-c17-i-")
     sandbox.make_home(b, home, controls={"me": "me.test"}, bins=("qmail-inject",), queue=False)
     rec = home + "/rec"
     os.makedirs(rec)
@@ -367,9 +382,16 @@ def smtpd_worker(bdir, hbin, lo, hi, per):
     """sessions lo..hi: `per` recipients each, encoded by the real addrmangle() (harness), sent as
     RCPT TO:<...> lines exactly as qmail-remote writes them to the real qmail-smtpd binary; the
     envelope it hands to the queue program must list the very same addresses in order"""
+    home = build.mktemp("nqv-c17-s-")
+    try:
+        return _smtpd_worker(bdir, hbin, lo, hi, per, home)
+    finally:
+        shutil.rmtree(home, ignore_errors=True)
+
+
+def _smtpd_worker(bdir, hbin, lo, hi, per, home):
     res = core.Result()
     b = build.Build("asan", bdir)
-    home = build.mktemp("nqv-c17-s-")
     sandbox.make_home(b, home, controls={"me": "server.test"}, bins=("qmail-smtpd",), queue=False)
     rec = home + "/rec"
     os.makedirs(rec)
